@@ -73,7 +73,7 @@ def run(ctx):
     if ctx.replay:
         return pc.replay(ctx, MODULE_T, kd)
     bprogs, nprog = pc.gen_bprogs(ctx)
-    nmut = 40000 if ctx.quick else 1500000
+    nmut = 60000 if ctx.quick else 1500000
     run_ = pc.Run(ctx, "c08", bprogs=bprogs, mutations=nmut, formats=RT_FORMATS)
     d = run_.execute()
     v, cfg = pc.judge(ctx, MODULE_T, run_.trace, kd, f"fixtures + builder programs + mutations seed={ctx.seed}", boundary=pc.rt_boundary)
